@@ -259,7 +259,7 @@ let do_line (line : string) : unit =
          | M.FCrash -> "CRASH" in
        Printf.printf "%s T=%s FOLD=%s RT=%s CLEAN=%s STRICT=%s UB=%s\n" id (string_of_ty t) f
          (string_of_outcome (M.rt_eval e))
-         (b01 (M.emit_ok e && M.no_enum_div e)) (b01 (M.strict e)) (b01 (ub_of e)))
+         (b01 (M.emit_ok e)) (b01 (M.strict e)) (b01 (ub_of e)))
   | "N" :: id :: rest ->
     (* enumerator initialiser: enumred.c model (efold) on the tree as written (enumerator
        references = LEnum leaves) and rt_eval on the same tree with the references replaced by
